@@ -13,3 +13,6 @@ import AiutiVerif.Decorators.Props
 import AiutiVerif.Buffer.Model
 import AiutiVerif.Buffer.Drive
 import AiutiVerif.Buffer.Props
+import AiutiVerif.FileLock.Model
+import AiutiVerif.FileLock.Drive
+import AiutiVerif.FileLock.Props
